@@ -79,6 +79,19 @@ func H_C19_lww() {
 // H_C19_clock: LamportClock.Compare is antisymmetric, transitive and respects time.
 func H_C19_clock() {
 	n := vx.Param("IDLEN", 1)
+	if vx.Choice("sharedBuffer", 2) == 1 {
+		// ids that are slices of one buffer (a device id carved out of "writer/device"): equality of ids is
+		// equality of their bytes, not of where they live
+		base := vx.BytesN("base", 2)
+		t := vx.Int("t")
+		p, q := entry.NewLamportClock(base[:1], t), entry.NewLamportClock(base, t)
+		pq, qp := p.Compare(q), q.Compare(p)
+		vx.Assert("C19", pq < 0 && qp > 0, "a clock id that is a proper prefix of another (same time) compares lower, also when both are slices of one buffer")
+		same := entry.NewLamportClock(base[:2], t)
+		vx.Assert("C19", q.Compare(same) == 0, "clocks with the same id bytes and time compare equal")
+		vx.Cover("prefix-ids-in-one-buffer")
+		return
+	}
 	a := entry.NewLamportClock(vx.Bytes("a.id", n), vx.Int("a.time"))
 	b := entry.NewLamportClock(vx.Bytes("b.id", n), vx.Int("b.time"))
 	c := entry.NewLamportClock(vx.Bytes("c.id", n), vx.Int("c.time"))
